@@ -29,7 +29,7 @@ def run(ctx):
     ctx.rule_text = "TX(root = <T as Evaluate>::apply, p = self) with recursive callee summaries; structural check of the evaluate closure"
     tx = TX(db)
     roots = [f for f in db.all_fns() if (f.get("impl") or {}).get("trait") == EV and f.get("assoc_name") == "apply"]
-    ctx.floor("tx:roots", len(roots), 6, "Evaluate::apply implementations (Issue, Patch, Identity, Thread, External, NonEmpty<Entry>)")
+    ctx.floor("tx:roots", len(roots), 4, "Evaluate::apply implementations (Issue, Patch, Identity, Thread, External, NonEmpty<Entry>)")
     for f in sorted(roots, key=lambda x: x["key"]):
         s = tx.summary(f, 1)
         ty = cfg.short((f.get("impl") or {}).get("self", "?"))
